@@ -80,6 +80,12 @@ void (*slu_verif_ilu_pivot_hook)(int phase, int dtype, int jcol, double u, int u
 				 double fill_tol, int ncand, const int_t *rows,
 				 const void *vals, const int *marker, const int *swap,
 				 int n, int info) = 0;
+/* verification hook H3: called by [sdcz]gstrf right before (phase 0) and right after (phase 1) each
+   call of [sdcz]column_dfs with the arguments of that call (NULL = off) */
+void (*slu_verif_coldfs_hook)(int phase, int m, int n, int jcol, const int *perm_r, int nseg,
+			      const int *lsub_col, const int *segrep, const int *repfnz,
+			      const int_t *xprune, const int *marker, const int *parent,
+			      const int_t *xplore, const void *Glu, int info) = 0;
 #endif
 
 int
